@@ -160,12 +160,24 @@ theorem join_not_idempotent_refuted :
   rw [h3] at h2
   cases h2
 
-/-- second clause, proved part: whenever the accepted string parses to a canonical value (every
-result of the parser except the K3 shape, where a replacing push leaves a reducible pair
-behind), printing it is a fixed point of parse-then-print. -/
+/-- second clause, what IS proved — a COROLLARY OF THE ROUND TRIP `parse_print`, not a theorem about
+strings (audit finding S7): IF the value an accepted string parses to is canonical (`canonP`), printing
+it is a fixed point of parse-then-print.  The string hypothesis `_hp` is not used, and NO theorem says
+that the parser's results are canonical: they are not, in general — `-5` is accepted with the
+non-canonical value `point (-6)` (evaluation only, see the note below) and `accepted_fixed_point_full_refuted` (K3 at string
+level).  For a `Joined` result the guard contains the conclusion (`canonP (joined ls)` includes
+`join ls = joined ls`).  The clause "for EVERY accepted string" is covered by the correspondence run and
+the Go oracle only. -/
 theorem accepted_fixed_point_partial (s : Pars.Bytes) (l : Loc) (r : Pars.Bytes)
     (_hp : parseLocation s = .ok (l, r)) (hc : canonP l = true) :
     parseLocation (printB l) = .ok (l, []) := parse_print l hc
+
+/- NOT PROVED (audit S7, `accepted_negative_not_canon`): "the text `-5` is accepted by `ParseLocation` — `pars.Int`
+reads a sign — as the point `-6` (0-based), whose `canonP` is false".  `canonP (point (-6)) = false` is `by decide`;
+`parseLocation [45, 53] = .ok (point (-6), [])` is what the model EVALUATES to (`#eval`) and what the real parser
+answers (`loc.parse x2d35` in the correspondence run), but the fuelled parser does not reduce in the kernel
+(`decide` / `decide +kernel` / `rfl` are stuck) and no lemma covers a signed coordinate, so it is not a theorem. -/
+example : canonP (point (-6)) = false := by decide
 
 /-! ### canonical locations are closed under the edit operations (as far as that is true)
 
@@ -208,6 +220,32 @@ theorem written_join_read_back (l : Loc) (ls : List Loc) (hc : canonPList (l :: 
   parseLocation_join_parts l ls hc
 
 example : canonPList [point 3, point 3] = true ∧ (join [point 3, point 3]).beq (point 3) = true := by decide
+
+/-- SECOND CLAUSE, FULL STATEMENT AT STRING LEVEL (false today, known finding K3): "for every string the
+parser accepts, printing the result is a fixed point of parse-then-print".  Witness: the text
+`join(4,3^4,4)` (= `printB (joined [point 3, between 3, point 3])`) is accepted and parses to `join(4,4)`,
+whose text parses to `4`, which prints `4` ≠ `join(4,4)`. -/
+theorem accepted_fixed_point_full_refuted :
+    ¬ (∀ (s : Pars.Bytes) (l : Loc) (r : Pars.Bytes), parseLocation s = .ok (l, r) →
+        ∃ l', parseLocation (printB l) = .ok (l', []) ∧ printB l' = printB l) := by
+  intro h
+  have h1 : parseLocation (printB (joined [point 3, between 3, point 3])) = .ok (joined [point 3, point 3], []) := by
+    rw [written_join_read_back (point 3) [between 3, point 3] (by decide)]
+    exact congrArg (fun x => Except.ok (x, [])) (Loc.beq_eq _ _ (by decide))
+  have h2 : parseLocation (printB (joined [point 3, point 3])) = .ok (point 3, []) := by
+    rw [written_join_read_back (point 3) [point 3] (by decide)]
+    exact congrArg (fun x => Except.ok (x, [])) (Loc.beq_eq _ _ (by decide))
+  obtain ⟨l', h3, h4⟩ := h _ _ _ h1
+  rw [h2] at h3
+  have : l' = point 3 := by injection h3 with h3; exact (congrArg Prod.fst h3).symm
+  subst this
+  revert h4
+  decide +kernel
+
+/-- the witness text of `accepted_fixed_point_full_refuted` is the string `join(4,3^4,4)`; it prints
+`join(4,4)`, which prints back as `4` -/
+example : printB (joined [point 3, between 3, point 3]) = [106, 111, 105, 110, 40, 52, 44, 51, 94, 52, 44, 52, 41] ∧
+    printB (joined [point 3, point 3]) = [106, 111, 105, 110, 40, 52, 44, 52, 41] ∧ printB (point 3) = [52] := by decide +kernel
 
 /-- FULL STATEMENT (false, known finding K3): "`Join` of canonical arguments is canonical".  The
 arguments `4, 3^4, 4` (each canonical) reduce to `join(4,4)`, which is not a fixed point of `Join`. -/
